@@ -107,3 +107,152 @@ claim('C09',
       'Not decided: serialisability of every returned annotation; exceptions of the charge-adduct sub-grammar at '
       'mass time. Assumes advancing helper calls consume at least one character when guarded by their cursor test.',
       'DESIGN.md section 4 C09')
+
+claim('C04',
+      'projection agreement by symbolic substitution of constructor bindings into derived properties, exhaustive '
+      'dispatch, forwarding completeness, strip rule computed from slice/mass field sets',
+      'Decides: the five non-fragment return types append exactly the projections (number/label via substituted '
+      'property bodies, mass, mz, tuples) of the Fragment the fragment branch builds, with local aliases resolved '
+      'to their provenance; all six return types handled; Fragmenter forwards every parameter under its own name '
+      'and builds its cache with the same expression as fragment(); loss/isotope/charge/ion_type reach every value '
+      'return of mass(); series routing uses the same partitioning sets as get_number with forward number = end and '
+      'backward number = n - start; before mass() is summed over one-residue pieces every whole-peptide field that '
+      'slice copies to each piece and mass() reads is popped, overridden or rejected.',
+      'Not decided: number of spans per series, uniqueness of ions, float equality of the incremental sum with the '
+      'direct calculator.',
+      'DESIGN.md section 4 C04')
+
+claim('C07',
+      'branch-agreement extraction on the return-type dispatcher, exhaustive dispatch, forwarding completeness, '
+      'inplace-twin and index-kind rules on slice, effect summaries',
+      'Decides: every peptide-producing expression of the dispatcher (9) cuts with exactly (span[0], span[1]) over '
+      'all spans, the string fast path is taken only under `not annotation.has_mods()`, tuple forms carry the span '
+      'the peptide was cut with, result forms match the return type; all five return types handled; '
+      'digest_from_config / sequential_digest (both call sites identical) / the three generators / '
+      'span_to_sequence forward every parameter; slice re-bases Positions and Boundaries correctly, rewrites exactly '
+      'the position-bearing fields and behaves identically in place; the subsequence search enumerates overlapping '
+      'occurrences; the digest functions neither write the protein annotation nor hand out aliases of it.',
+      'Not decided: that slice re-indexes correctly for every (s, e), mass conservation across a digest, that the '
+      'search re-locates every peptide (value-level).',
+      'DESIGN.md section 4 C07')
+
+claim('C11',
+      'inplace-twin comparison (field-update multisets + read-after-overwrite), index-kind polynomials '
+      '(Position vs Boundary), field-rewrite sets, effect summaries, forwarding',
+      'Decides: for the 7 methods with an inplace switch the in-place branch applies the same field updates as the '
+      'copy branch and reads no field of self after overwriting it; reverse maps Positions p -> n-1-p and interval '
+      'Boundaries (s,e) -> (n-e, n-s), slice re-bases p -> p-start on start <= p < stop and b -> max(0, b-start), '
+      'shift maps p -> (p-k) mod n with the residues rotated by the same k (as polynomial normal forms); each '
+      'reordering method rewrites exactly the position-bearing fields, termini swap only under swap_terms; the '
+      'non-inplace forms do not write self and no reordering uses the process RNG; the module wrappers forward '
+      'include_plus/swap_terms/seed/n.',
+      'Not decided: that the index maps are the right permutations for every input, slice composition, '
+      'split-then-join identity, mass invariance (value-level index arithmetic).',
+      'DESIGN.md section 4 C11')
+
+claim('C12',
+      'sibling-literal and shape comparison across the three static-rule interpreters, control-dependence of the '
+      'isotope substitution, separator-table extraction, route condition + backward slices',
+      'Decides: mass fast path, composition path and condensation read the same two special targets, skip exactly '
+      'them in the residue loop, count every occurrence of a targeted residue and parse the static_mods field; the '
+      'isotope substitution labels the sequence composition on both branches and the modification composition only '
+      'under use_isotope_on_mods (flag forwarded mass -> comp_mass -> _sequence_comp) and moves the whole element '
+      'count; static-rule writer/parser agree on @ , and []; D/T are filed under H and the element is the label '
+      'minus digits; mass() takes the composition route exactly when labels are present and every parameter '
+      'reaches both returns.',
+      'Not decided: equality of masses/compositions/fragments between global and explicit form for every rule; '
+      'per-residue pieces carrying terminal static rules (value-level consequence of slice semantics).',
+      'DESIGN.md section 4 C12')
+
+claim('C13',
+      'dispatch-chain extraction on `mode` with adder-flag comparison, exhaustive dispatch against the literal, '
+      'site-computation call rules, effect summaries, forwarding',
+      'Decides: in all four mode chains overwrite -> adder(append=False), append -> adder(append=True), skip -> '
+      'continue, unmodified site -> appended, else -> raise ValueError, handled set == ModMode == MOD_MODE_VALUES; '
+      'all four site computations call get_regex_match_indices(annotation.sequence, rule, offset=-1); terminal rules '
+      'test index 0 / len-1; the builders edit and hand out only copies; mode/return_type/max_mods are forwarded.',
+      'Not decided: that the recursion enumerates every eligible subset exactly once, max_mods accounting with '
+      'pre-existing modifications, idempotence of skip mode (combinatorial, value-level).',
+      'DESIGN.md section 4 C13')
+
+claim('C14',
+      'must-use rule on the particle-offset definition (allowed control dependences), forwarding completeness by '
+      'parameter name, sibling table selection, effect summaries',
+      'Decides: the e/p/n mass offset is built from all three counts with the matching constants and every use of '
+      'it is control dependent only on the output-mode switches (not on whether the formula is fractional); '
+      'estimate_isotopic_distribution passes each of its ten options to the same-named parameter; the two isotope '
+      'tables are selected by one use_neutron_count test; sum-normalisation only under is_abundance_sum and '
+      'unconditional scaling by distribution_abundance; arguments are not edited.',
+      'Not decided: normalisation, sortedness, the mean identity, multinomial comparison, binning (numeric '
+      'properties of convolutions). Known finding: in the neutron-offset view with output masses the offset is '
+      'still applied only for fractional formulas (a doctest pins that view).',
+      'DESIGN.md section 4 C14')
+
+claim('C15',
+      'token-pattern constants evaluated against the writer\'s key/count alphabet, predicate normal forms compared '
+      'across three sites, accumulate-idiom rule on the parser loops',
+      'Decides: every unbracketed key the writer can emit (all bundled element symbols + e/p/n) is tokenised whole '
+      'by the reader pattern with signed int and decimal counts, element and count alphabets are disjoint, '
+      'bracketed components are split off and dispatched to the isotope parser; the isotope-key predicate is the '
+      'same in the writer, in chem_mass and (D/T) in the component parser and the writer brackets exactly under it; '
+      'every store into a formula result dictionary accumulates; zero counts are dropped on both writer branches; '
+      'chem_mass(str) parses with the caller\'s separator; glycan look-ups go name then synonym in both resolvers '
+      'and the glycan writer always writes the count.',
+      'Not decided: equality of the re-parsed composition for every composition, additivity of float masses. The '
+      'pattern constants are evaluated with the stdlib regex engine on a finite symbol table (a table check).',
+      'DESIGN.md section 4 C15')
+
+claim('C16',
+      'call-site rule on occurrence-enumerating regex scans (with reviewed exemption table), forwarding, sibling '
+      'range comparison, effect summaries',
+      'Decides: the scans that enumerate occurrences of the query in the target (is_subsequence, find_indices, '
+      'get_regex_match_indices) pass overlapped=True and any new finditer/findall site outside the reviewed table '
+      'must too; ignore_mods is forwarded percent_coverage -> coverage -> find_subsequence_indices and strips both '
+      'operands; the query searches itself in the target; accumulate and binary coverage mark the same half-open '
+      'range [i, i+len(query)); the search and counting functions do not write their arguments.',
+      'Not decided: coverage arithmetic, percent in [0,1], multiset containment semantics (value-level).',
+      'DESIGN.md section 4 C16')
+
+claim('C17',
+      'attribute-resolution rule on typed receivers, validated-vs-handled value sets, forwarding, effect summaries',
+      'Decides: every attribute read on a value of a repository class in score.py resolves to a member of that '
+      'class; match_spectra handles exactly the modes it validates and get_fragment_matches validates the same set; '
+      'tolerance_type is validated against {ppm, th}; tolerance_value/tolerance_type/mode/intensity_spectra are '
+      'forwarded through the matching chain and peaks are sorted together with their intensities; the caller\'s '
+      'lists are not reordered.',
+      'Not decided: correctness of the two-pointer sweep, tie handling, inclusiveness of bounds, fraction in [0,1].',
+      'DESIGN.md section 4 C17')
+
+claim('C18',
+      'strip rule computed from slice/mass field sets, provenance of written values, forwarding/backward slices, '
+      'effect summary',
+      'Decides: before mass(piece) - mass(stripped piece) is summed, every whole-peptide field that slice copies '
+      'to every piece and mass() reads (labile, unknown-position, charge, adducts) is popped; the result starts from '
+      'strip() and every modification written into it is round(<mass>, precision); include_plus reaches the '
+      'serializer, precision every rounding; the argument annotation is not written.',
+      'Not decided: mass preservation within rounding for every annotation (float); intervals (clipped, not '
+      'copied, by slicing) are outside the rule.',
+      'DESIGN.md section 4 C18')
+
+claim('C19',
+      'call-mapping rule (method name -> itertools function and arguments), alpha-normalised clone comparison of '
+      'the four method bodies, key agreement with pop_mods, effect summaries',
+      'Decides: each method enumerates with the itertools function of its own name on (serialized residue pieces, '
+      'size|repeat), None means len(self), each module function delegates to the same-named method with its size; '
+      'the four bodies are identical modulo the itertools function and local names; start/end text are serialized '
+      'from self before anything is popped and every result is parse(start + join(pieces) + end); the residue '
+      'modifications are read back under the key pop_mods files them under; self is not edited.',
+      'Not decided: the counts n!/(n-k)!, C(n,k), ..., ordering, that every result parses.',
+      'DESIGN.md section 4 C19')
+
+claim('C20',
+      'produced-vs-consumed key tables, field-coverage slices, hash/eq field parity, effect summaries',
+      'Decides: every key mod_dict() or pop_mods() can produce is consumed by add_mod_dict() and routed to the same '
+      'field (integer keys to residue modifications); __eq__ and dict() cover all 11 fields, mod_dict / pop_mods / '
+      'strip(inplace) / has_mods / clear_empty_mods the 10 modification fields, create_annotation passes all 11; '
+      'Mod/Interval __hash__ use exactly the fields __eq__ compares, interval hash is order-insensitive, list '
+      'equality is a Counter comparison; copy()/dict()/mod_dict() share nothing with self, setters store copies, '
+      'create_annotation does not capture.',
+      'Not decided: add_mods(strip(s), get_mods(s)) == s for every s; that equality distinguishes every '
+      'perturbation (value-level).',
+      'DESIGN.md section 4 C20')
